@@ -106,36 +106,53 @@ def run(prop, tier):
     for cfg, sim in CONFIGS[tier]:
         txt = open(os.path.join(SPEC, cfg)).read()
         ms = int(re.search(r"MaxSteps\s*=\s*(\d+)", txt).group(1))
-        lines = []
-        res = run_tlc("CloseStack", cfg, timeout=1200, on_line=lines.append, simulate=sim, depth=ms if sim else None,
+        state = {"nbad": 0, "n": 0, "first": []}
+
+        def process(lines):
+            if sim:
+                lines = [l for l in lines if len(l["h"]) == ms or l["fin"] != "run"]
+            cases = [{"id": i, "src": render(l, ms), "timeout": 8000} for i, l in enumerate(lines)]
+            outs = run_lua_cases(drv, cases)
+            if not state["first"]:
+                state["first"] = (lines[:], cases[:])
+            for i, l in enumerate(lines):
+                o = outs[i]
+                state["n"] += 1
+                cov["traces_validated_against_impl"] += 1
+                la = l["h"][-1]
+                key = la["a"] + (":" + la.get("kind", la.get("h", "")) if ("kind" in la or "h" in la) else "")
+                cov["last_action_kinds"][key] = cov["last_action_kinds"].get(key, 0) + 1
+                exp = [["tables"] + ["T%d" % j for j in range(1, ms + 1)]] + l["ev"]
+                if sum(1 for e in l["ev"] if e[0] == "tbc") >= 2:
+                    cov["nontrivial"] += 1
+                why = compare_program(o, exp, l["fin"])
+                if why:
+                    state["nbad"] += 1
+                    kinds = sorted(set(a.get("kind", "") for a in l["h"] if a["a"] == "open"))
+                    sig = {"kind": why["kind"], "last": la["a"], "tag": why.get("tag", ""), "scopes": "+".join(kinds)}
+                    rep.violation(sig, {"cmd": "lua-run", "src": cases[i]["src"], "history": l["h"], "expected_events": exp,
+                                        "expected_outcome": l["fin"], "observed": o, "why": why})
+                elif len(l["h"]) >= 5:
+                    rep.sample({"history": l["h"], "program": cases[i]["src"], "events": o["events"]}, cap=2)
+
+        buf = []
+
+        def on_line(v):
+            buf.append(v)
+            if len(buf) >= 100000:
+                process(buf[:])
+                del buf[:]
+
+        res = run_tlc("CloseStack", cfg, timeout=3600, on_line=on_line, simulate=sim, depth=ms if sim else None,
                       workers=1 if sim else None)
         if res.violation:
             raise Infra("CloseStack design-level check failed on %s: %s" % (cfg, res.violation))
+        if buf:
+            process(buf[:])
         cov["states"] += res.distinct
         cov["transitions"] += res.generated
-        if sim:
-            lines = [l for l in lines if len(l["h"]) == ms or l["fin"] != "run"]
-        cases = [{"id": i, "src": render(l, ms), "timeout": 8000} for i, l in enumerate(lines)]
-        outs = run_lua_cases(drv, cases)
-        nbad = 0
-        for i, l in enumerate(lines):
-            o = outs[i]
-            cov["traces_validated_against_impl"] += 1
-            la = l["h"][-1]
-            key = la["a"] + (":" + la.get("kind", la.get("h", "")) if ("kind" in la or "h" in la) else "")
-            cov["last_action_kinds"][key] = cov["last_action_kinds"].get(key, 0) + 1
-            exp = [["tables"] + ["T%d" % j for j in range(1, ms + 1)]] + l["ev"]
-            if sum(1 for e in l["ev"] if e[0] == "tbc") >= 2:
-                cov["nontrivial"] += 1
-            why = compare_program(o, exp, l["fin"])
-            if why:
-                nbad += 1
-                kinds = sorted(set(a.get("kind", "") for a in l["h"] if a["a"] == "open"))
-                sig = {"kind": why["kind"], "last": la["a"], "tag": why.get("tag", ""), "scopes": "+".join(kinds)}
-                rep.violation(sig, {"cmd": "lua-run", "src": cases[i]["src"], "history": l["h"], "expected_events": exp,
-                                    "expected_outcome": l["fin"], "observed": o, "why": why})
-            elif len(l["h"]) >= 5:
-                rep.sample({"history": l["h"], "program": cases[i]["src"], "events": o["events"]}, cap=2)
+        nbad = state["nbad"]
+        lines, cases = state["first"] if state["first"] else ([], [])
         # the same programs through the bare embedding entry point rt.Call (what the golua command uses):
         # programs that end normally must behave identically; programs whose error reaches the host are the
         # recorded deviation F23 (pending variables of the main chunk are not closed).
@@ -154,8 +171,8 @@ def run(prop, tier):
                     sig = {"kind": why["kind"], "last": l["h"][-1]["a"], "tag": why.get("tag", ""), "entry": "rt.Call"}
                 rep.violation(sig, {"cmd": "lua-run", "raw": True, "src": cases[i]["src"], "expected_events": exp,
                                     "expected_outcome": l["fin"], "observed": routs[i], "why": why})
-        cov["configs"].append({"cfg": cfg, "distinct": res.distinct, "generated": res.generated, "programs": len(lines), "mismatching": nbad})
-        log("[%s] %s: %d distinct, %d programs run, %d mismatching" % (prop, cfg, res.distinct, len(lines), nbad))
+        cov["configs"].append({"cfg": cfg, "distinct": res.distinct, "generated": res.generated, "programs": state["n"], "mismatching": nbad})
+        log("[%s] %s: %d distinct, %d programs run, %d mismatching" % (prop, cfg, res.distinct, state["n"], nbad))
     cov["exhaustive"] = True
     cov["distinct_nontrivial_rule"] = "nontrivial = paths whose expected trace contains at least two handler calls"
     rep.assumptions += ["an error propagating out of a coroutine body closes its pending variables when the coroutine dies (golua's reading)"]
